@@ -41,7 +41,8 @@ Carriers == {"102.UnknownGearCommand", "103.UnknownDeviceCommand", "Command"}
 \* ---- decode tables (C01; names = C03's converse clause) ----------------------
 DecCellOK(c) == c >= 0 /\ c % 16 = 15
 NameAt(k) == IF k \in 1..Len(Names) THEN Names[k] ELSE "?class-not-registered"
-NameOK(c, n) == n = Unnamed \/ n = "event" \/ NameAt(c \div 16) = n
+NameOK(c, n) == IF n = Unnamed THEN NameAt(c \div 16) \in UnknownNames     \* no name in the tables: a generic / unknown command
+                ELSE n = "event" \/ NameAt(c \div 16) = n
 
 Tbl(t) == CASE t = "gear" -> AllGearRows [] t = "gearspecial" -> GearSpecial102 [] t = "dev" -> Dev103
             [] t = "inst" -> Inst103 [] t = "devspecial" -> DevSpecial103
